@@ -56,8 +56,11 @@ def cmd_new(name, expect, file):
         os.makedirs(MUT, exist_ok=True)
         open(os.path.join(MUT, name + ".diff"), "w").write(diff)
         idx = load()
-        rules = [] if expect == "neutral" else expect.split(",")
+        rules = [] if expect == "neutral" else [r.split("@")[0] for r in expect.split(",")]
+        props = sorted({r.split("@")[1] for r in expect.split(",") if "@" in r})
         idx[name] = {"file": file, "expect": rules, "neutral": expect == "neutral"}
+        if props:
+            idx[name]["props"] = props
         save(idx)
         print("created", name)
     finally:
@@ -68,6 +71,8 @@ def cmd_new(name, expect, file):
 def props_of(entry, allprops):
     if entry.get("neutral"):
         return entry.get("props") or allprops
+    if entry.get("props"):
+        return entry["props"]
     return sorted({r.split(".")[0] for r in entry["expect"]})
 
 
